@@ -115,9 +115,9 @@ def check_group_Ad(w, rep, name, G, tier):
     n = w.attr(alg, "n_param")
     kind = rot_kind(w, G)
     W = lambda m: w.method_where(G, m)[:2]
-    X, xp = w.fresh(G, "X")
-    Y, yp = w.fresh(G, "Y")
-    quats = quats_of(w, G, xp, yp)
+    X, xp, qx = fresh_on_manifold(w, G, "X")
+    Y, yp, qy = fresh_on_manifold(w, G, "Y")
+    quats = qx + qy
     ok_ad, AD = guarded(w, rep, "C04.API", "%s.Ad" % name, lambda: w.call(X, "Ad"))
     if not ok_ad:
         return
